@@ -1005,3 +1005,43 @@ def run_parser_function_context(rec, S):
         if not ok:
             rec.finding(R, "F2.scope-fn/%s" % name, "Parser::%s starts a new function (installs fun_kind) but neither it nor the method it hands the body to resets loop_depth: `while c { let f = || { break; }; }` is accepted and the compiler then panics ('Parser should have caught the loop constraint')" % name, loc=L(PARSER, f["line"]), fn=name)
     rec.floor(R, "function-context entry points in the parser", n, 3)
+
+
+def run_argument_delimiter(rec, S):
+    """The peephole pass fuses `GetPropByName, PropertySlot, Call(n)` and `GetSuper, Call(n)` into an invoke of that
+    property on the value below the arguments. The compiler keeps an argument that ends in such a lookup apart from the
+    Call that follows it with the zero-length ArgumentDelimiter; which expressions end in a lookup is not something a
+    syntactic test at the call gets right (`super.m`, `(a.b)`), so the delimiter is emitted for the argument whatever it is."""
+    R = rec.rule("F2.argdelim", "Compiler::call emits ArgumentDelimiter after compiling each argument (at least the last one) without asking what kind of expression the argument is: a lookup that ends an argument must never sit directly in front of Call, where the peephole pass would fuse the two into an invoke on the wrong receiver")
+    fns = compiler_fns(S)
+    f = fns.get("call")
+    if f is None:
+        rec.anchor_lost("F2.argdelim", "Compiler::call")
+        return
+    evs = synq.events(f)
+    delims = [e for e in evs if e.kind == "op" and e.name == "ArgumentDelimiter"]
+    calls = [e for e in evs if e.kind == "op" and e.name == "Call"]
+    ok = bool(delims) and bool(calls)
+    why = "no ArgumentDelimiter is emitted" if not delims else ""
+    for d in delims:
+        loops = [i for i, c in enumerate(d.ctx) if c[0] in ("for", "while", "loop")]
+        if not loops:
+            ok, why = False, "the delimiter is not emitted per argument (outside the loop over the arguments)"
+            continue
+        inner = d.ctx[loops[-1] + 1:]
+        for c in inner:
+            if c[0] == "arm":
+                ok, why = False, "the delimiter depends on a match over `%s`" % c[1][:40]
+            elif c[0] == "if":
+                # a test of the position alone (`index == last`) is a matter of which argument; anything that looks at
+                # the argument expression is a guess about how it ends
+                toks = set(re.findall(r"[A-Za-z_]\w*", c[1]))
+                if re.search(r"\w\s*\(", c[1].replace("len()", "").replace("saturating_sub(", "").replace("is_empty()", "")) or toks & {"expr", "arg", "argument"} or "{..}" in c[1] or "match " in c[1] or "matches!" in c[1]:
+                    ok, why = False, "the delimiter is emitted only when `%s`" % c[1][:60]
+        # after the argument has been compiled
+        exprs = [e for e in evs if e.kind == "call" and e.name == "expr" and e.ctx[:loops[-1] + 1] == d.ctx[:loops[-1] + 1]]
+        if not any(evs.index(e) < evs.index(d) for e in exprs):
+            ok, why = False, "the delimiter does not follow the compilation of the argument"
+    rec.inst(R, "call: ArgumentDelimiter per argument, unconditional", ok=ok, loc=L(COMPILER, f["line"]), note=why)
+    if not ok:
+        rec.finding(R, "F2.argdelim/call", "Compiler::call: %s: an argument such as `super.m` or `(a.b)` then ends directly in front of Call and the peephole pass fuses the lookup with the call (`f(x, super.m)` becomes an invoke of m on x)" % why, loc=L(COMPILER, f["line"]), fn="call")
